@@ -122,4 +122,131 @@ theorem ceLoss_eq_spec (n c : Nat) (s : Nat → Nat → ℝ) (labels : List Nat)
   show Num.log (clip (Spec.softmaxFn c (s i) (labels.getD i 0)) eps10 (1 - eps10)) = _
   rw [clip_eq_self _ _ _ (hclip i hi).1 (hclip i hi).2]
 
+theorem isLabel_eq (labels : List Nat) (i k : Nat) (hi : i < labels.length) :
+    isLabel labels i k = decide (labels.getD i 0 = k) := by
+  unfold isLabel
+  generalize labels.getD i 0 = y
+  by_cases h : y = k <;> simp [hi, h]
+
+/-- **`BinaryCrossEntropy.loss` is the mean binary cross-entropy** (one-versus-rest with several channels) whenever
+every sigmoid probability lies in `[1e-15, 1 − 1e-15]` (otherwise the code clips it) -/
+theorem bceLoss_eq_spec (n c : Nat) (s : Nat → Nat → ℝ) (labels : List Nat) (hlen : labels.length = n)
+    (hlab : c ≠ 1 → ∀ y ∈ labels, y < c)
+    (hclip : ∀ i, i < n → ∀ k, k < c → (eps15 : ℝ) ≤ Real.sigmoid (s i k) ∧ Real.sigmoid (s i k) ≤ 1 - eps15) :
+    bceLoss (mk' n c s) labels = .ok (Spec.bceLoss (mk' n c s) labels) := by
+  have hP : ∀ i, i < n → ∀ k, k < c →
+      clip ((actOutput .sigmoid (mk' n c s)).get i k) eps15 (1 - eps15) = Real.sigmoid (s i k) := by
+    intro i hi k hk
+    rw [actOutput_mk', get_mk'_of_lt _ hi hk, sigmoid_spec_eq]
+    exact clip_eq_self _ _ _ (hclip i hi k hk).1 (hclip i hi k hk).2
+  have hS : ∀ i, i < n → ∀ k, k < c →
+      Spec.actFn .sigmoid c (fun j => (mk' n c s).get i j) k = Real.sigmoid (s i k) := by
+    intro i hi k hk
+    rw [sigmoid_spec_eq, get_mk'_of_lt s hi hk]
+  unfold bceLoss Spec.bceLoss
+  by_cases hc : c = 1
+  · subst hc
+    simp only [mk'_c, mk'_r, if_true, hlen, ne_eq, not_true_eq_false, if_false, bind, Except.bind, pure, Except.pure,
+      num_nat, num_log]
+    congr 2
+    rw [sumTo_eq, sumTo_eq, sumTo_eq, neg_sub_left, ← Finset.sum_add_distrib, ← Finset.sum_neg_distrib]
+    apply Finset.sum_congr rfl
+    intro i hi
+    have hi' := mem_range.mp hi
+    rw [sumTo_eq, Finset.sum_range_one, hP i hi' 0 (by decide), hS i hi' 0 (by decide)]
+    generalize labels.getD i 0 = y
+    rcases Nat.eq_zero_or_pos y with h | h
+    · subst h
+      simp
+    · have h0 : y ≠ 0 := Nat.pos_iff_ne_zero.mp h
+      simp [h, h0]
+  · simp only [mk'_c, mk'_r, hc, if_false, num_nat, num_log]
+    rw [labelsOk_ok n c s labels hlen (hlab hc)]
+    simp only [bind, Except.bind, pure, Except.pure, hlen]
+    congr 2
+    apply sumTo_congr
+    intro i hi
+    apply sumTo_congr
+    intro k hk
+    rw [hP i hi k hk, hS i hi k hk, isLabel_eq labels i k (hlen ▸ hi)]
+
+/-- the value of a loss call (`0` if it raised) -/
+noncomputable def lossVal (r : Except PyErr ℝ) : ℝ :=
+  match r with
+  | .ok v => v
+  | .error _ => 0
+
+theorem softmax_update_continuousAt (c : Nat) (s : Nat → ℝ) (y k : Nat) (hk : k < c) :
+    ContinuousAt (fun t => Spec.softmaxFn c (Function.update s k t) y) (s k) :=
+  (softmax_hasDerivAt c s y k hk).continuousAt
+
+/-- **the code's own (clipped) `CrossEntropy.loss`** has the derivative `loss_gradient / n` wherever the label
+probabilities lie strictly inside the clipping interval -/
+theorem ceLoss_model_hasDerivAt (n c : Nat) (s : Nat → Nat → ℝ) (labels : List Nat) (hn : 0 < n)
+    (hlen : labels.length = n) (hlab : ∀ y ∈ labels, y < c)
+    (hclip : ∀ i, i < n → (eps10 : ℝ) < Spec.softmaxFn c (s i) (labels.getD i 0) ∧
+      Spec.softmaxFn c (s i) (labels.getD i 0) < 1 - eps10)
+    (i0 k : Nat) (hi : i0 < n) (hk : k < c) :
+    HasDerivAt (fun t => (n : ℝ) * lossVal (ceLoss (mk' n c (updRow s i0 k t)) labels))
+      ((Spec.ceGradient (mk' n c s) labels).get i0 k) (s i0 k) := by
+  have hlab' : ∀ j, j < n → labels.getD j 0 < c := fun j hj => getD_mem_lt labels c hlab j (hlen ▸ hj)
+  have hbase := ceLoss_hasDerivAt n c s labels hn hlab' i0 k hi hk
+  refine hbase.congr_of_eventuallyEq ?_
+  have hev : ∀ᶠ t in nhds (s i0 k), ∀ i ∈ range n,
+      Spec.softmaxFn c (updRow s i0 k t i) (labels.getD i 0) ∈ Set.Ioo (eps10 : ℝ) (1 - eps10) := by
+    rw [Filter.eventually_all_finset]
+    intro i hi'
+    have hin := hclip i (mem_range.mp hi')
+    by_cases h : i = i0
+    · subst h
+      have hc := softmax_update_continuousAt c (s i) (labels.getD i 0) k hk
+      have hmem : Set.Ioo (eps10 : ℝ) (1 - eps10) ∈ nhds (Spec.softmaxFn c (Function.update (s i) k (s i k)) (labels.getD i 0)) := by
+        rw [Function.update_eq_self]
+        exact Ioo_mem_nhds hin.1 hin.2
+      have := hc.eventually hmem
+      filter_upwards [this] with t ht
+      rw [updRow_self]
+      exact ht
+    · filter_upwards with t
+      rw [updRow_of_ne s i0 k t h]
+      exact ⟨hin.1, hin.2⟩
+  filter_upwards [hev] with t ht
+  rw [ceLoss_eq_spec n c (updRow s i0 k t) labels hlen hlab
+    (fun i hi' => ⟨(ht i (mem_range.mpr hi')).1.le, (ht i (mem_range.mpr hi')).2.le⟩)]
+  rfl
+
+
+theorem updRow_apply (s : Nat → Nat → ℝ) (i0 k0 : Nat) (t : ℝ) (i k : Nat) :
+    updRow s i0 k0 t i k = if i = i0 ∧ k = k0 then t else s i k := by
+  by_cases hi : i = i0
+  · subst hi
+    rw [updRow_self]
+    by_cases hk : k = k0
+    · subst hk; simp
+    · simp [hk]
+  · rw [updRow_of_ne s i0 k0 t hi]
+    simp [hi]
+
+/-- **the code's own (clipped) `BinaryCrossEntropy.loss`** has the derivative `loss_gradient / n` wherever every
+sigmoid probability lies strictly inside the clipping interval -/
+theorem bceLoss_model_hasDerivAt (n c : Nat) (s : Nat → Nat → ℝ) (labels : List Nat) (hn : 0 < n)
+    (hlen : labels.length = n) (hlab : c ≠ 1 → ∀ y ∈ labels, y < c)
+    (hclip : ∀ i, i < n → ∀ k, k < c → (eps15 : ℝ) < Real.sigmoid (s i k) ∧ Real.sigmoid (s i k) < 1 - eps15)
+    (i0 k0 : Nat) (hi : i0 < n) (hk : k0 < c) :
+    HasDerivAt (fun t => (n : ℝ) * lossVal (bceLoss (mk' n c (updRow s i0 k0 t)) labels))
+      ((Spec.bceGradient (mk' n c s) labels).get i0 k0) (s i0 k0) := by
+  have hbase := bceLoss_hasDerivAt n c s labels hn i0 k0 hi hk
+  refine hbase.congr_of_eventuallyEq ?_
+  have hin := hclip i0 hi k0 hk
+  have hev : ∀ᶠ t in nhds (s i0 k0), Real.sigmoid t ∈ Set.Ioo (eps15 : ℝ) (1 - eps15) :=
+    (Real.hasDerivAt_sigmoid (s i0 k0)).continuousAt.eventually (Ioo_mem_nhds hin.1 hin.2)
+  filter_upwards [hev] with t ht
+  rw [bceLoss_eq_spec n c (updRow s i0 k0 t) labels hlen hlab (by
+    intro i hi' k hk'
+    rw [updRow_apply]
+    by_cases h : i = i0 ∧ k = k0
+    · rw [if_pos h]; exact ⟨ht.1.le, ht.2.le⟩
+    · rw [if_neg h]; exact ⟨(hclip i hi' k hk').1.le, (hclip i hi' k hk').2.le⟩)]
+  rfl
+
 end SkNet.Gnn
